@@ -504,8 +504,8 @@ def scenario_single(R, cfg, opt, floats, store):
             check_fit_log(R, cfg, exp, parts, tag)
             want = {k for k in exp if k[3] in parts}
             keys = set(res.results)
-            wantk = {f"{s}_{d}_{p}_{f}" for (s, d, f, p) in want}
-            R.check("one-record-per-cell-and-part", keys == wantk, f"{tag} run {rep}: in-memory record keys {sorted(keys)}, expected {sorted(wantk)}")
+            # the representation of the in-memory key is internal: exactly one record per (strategy, dataset, fold, part)
+            R.check("one-record-per-cell-and-part", len(keys) == len(want), f"{tag} run {rep}: {len(keys)} in-memory records {sorted(map(str, keys))}, expected {len(want)}")
             check_api(R, cfg, exp, res, None, parts, tag + f" run {rep}", floats, "")
         R.check("original-estimators-stay-unfitted", not any(hasattr(e, "X_") for e in originals), f"{tag}: the strategy's own estimator object was fitted (no clone per fold)")
         return
@@ -752,6 +752,14 @@ def _bounded(R, tier, seed, quick):
     cfgd = Config("clf d1(n=8) labels '1','2','03' (strings) index=perm cv=KFold(2) strategies nn", "clf", {"d1": fr}, clf_estimators(["nn"]), ("kfold", 2))
     scenario_single(R, cfgd, O(pot=True, save=False), False, "RAM")
     scenario_single(R, cfgd, O(pot=True, save=False), False, "HDD")
+    # names containing the separator characters of the stores' keys: ("a_b", "c") vs ("a", "b_c") must stay two records
+    e2 = clf_estimators(["nn", "far"])
+    cfgu = Config("clf datasets 'c', 'b_c' strategies 'a_b', 'a' (names with underscores) cv=KFold(2)", "clf",
+                  {"c": make_frame(seed + 21, 7, "clf", "int", "range", ("a", "b", "target")),
+                   "b_c": make_frame(seed + 22, 8, "clf", "int", "range", ("a", "b", "target"))},
+                  {"a_b": e2["nn"], "a": e2["far"]}, ("kfold", 2))
+    scenario_single(R, cfgu, O(pot=True, save=False), False, "RAM")
+    scenario_single(R, cfgu, O(pot=False, save=False), False, "HDD")
     # pre-split files on disk
     scenario_uea(R, seed + 11, False, ["a", "b"], 0)
     if not quick:
